@@ -1,7 +1,7 @@
 """Which contract libraries serve which property."""
 import importlib
 
-LIBS = ["bitset", "scalars", "codec", "cursor", "gen_access", "groups", "arrays", "gen_more"]
+LIBS = ["bitset", "scalars", "codec", "cursor", "gen_access", "groups", "arrays", "gen_more", "gen_sbc"]
 
 
 import re
